@@ -687,6 +687,7 @@ void reb_whfast_calculate_jerk(struct reb_simulation* r){
     // Assume particles.a calculated.
 	struct reb_particle* const particles = r->particles;
 	const int N = r->N;
+	const int N_active = (r->N_active==-1)?N:r->N_active;
     struct reb_particle* jerk = r->ri_whfast.p_jh; // Used as a temporary buffer for accelerations
 	const double G = r->G;
     double Rjx = 0.; // com
@@ -732,7 +733,8 @@ void reb_whfast_calculate_jerk(struct reb_simulation* r){
             /////////////////
             // Direct Term
             // Note: ignoring i==0 && j==1 term here and above as they cancel
-            if (j!=i && (i!=0 || j!=1)){
+            // Note: i<j, test particles (i>=N_active) do not interact with each other
+            if (j!=i && (i!=0 || j!=1) && i<N_active){
                 const double dx = particles[j].x - particles[i].x; 
                 const double dy = particles[j].y - particles[i].y; 
                 const double dz = particles[j].z - particles[i].z; 
